@@ -195,13 +195,14 @@ def finish(prop: str, level: str, tier: str, seed: int, results: List[Result], t
     print(f"[{prop}] tier={tier} obligations={len(results)} holds={len(holds)} violations={n_viol} "
           f"known={len(matched)} inconclusive={len(inconc)} harness_errors={len(harness)} "
           f"queries={cov['evaluations']} solver_s={cov['solver_s']} wall_s={ev['wall_s']}")
-    if harness:
-        for r in harness[:10]:
-            print(f"HARNESS-ERROR property={prop} {r.oid}: {r.detail[:1500]}", file=sys.stderr)
-        return EXIT_HARNESS
+    for r in harness[:10]:
+        print(f"HARNESS-ERROR property={prop} {r.oid}: {r.detail[:1500]}", file=sys.stderr)
+    # a replay-confirmed violation stands on its own: an unrelated obligation whose harness broke does not hide it
     for ln in viol_lines:
         print(ln)
-    return EXIT_VIOLATION if n_viol else EXIT_OK
+    if n_viol:
+        return EXIT_VIOLATION
+    return EXIT_HARNESS if harness else EXIT_OK
 
 
 def _safe_name(s):
